@@ -3,7 +3,7 @@
 From Coq Require Import List ZArith NArith Bool String Lia.
 From Flocq Require Import IEEE754.BinarySingleNaN.
 From Verif Require Import common.Sexp common.Int64 c03.JV c03.FloatText c03.Core c03.Ops c03.Natives c03.Spec c03.Wf c03.Denote
-  c03.CompareDoc c03.OpsDoc c03.NativesDoc c03.NoPanic1.
+  c03.CompareDoc c03.OpsDoc c03.NativesDoc c03.NativesDoc2 c03.NoPanic1.
 Import ListNotations.
 Open Scope Z_scope.
 
@@ -94,6 +94,20 @@ Section Rep.
   Qed.
   Theorem f_has_rep : rep2 (f_has pf).
   Proof. eapply rep2_of_doc. apply f_has_doc; auto. Qed.
+
+  (* unary natives proved to meet their documented function are representation independent *)
+  Definition rep1 (f : jv -> outcome jv) : Prop :=
+    forall v v', wf v = true -> wf v' = true -> denote v = denote v' -> oeq (f v) (f v').
+  Lemma rep1_of_doc f sp : (forall v, wf v = true -> agrees (f v) (sp (denote v))) -> rep1 f.
+  Proof. intros H v v' W W' E. eapply agrees_oeq; [apply H; auto|]. rewrite E. apply H; auto. Qed.
+  Theorem natives_rep1 :
+    rep1 f_utf8bytelength /\ rep1 f_keys /\ rep1 f_reverse /\ rep1 f_type /\ rep1 f_explode
+    /\ rep1 (f_minmax pf true) /\ rep1 (f_minmax pf false) /\ rep1 (f_add pf).
+  Proof.
+    repeat split; eapply rep1_of_doc; intros;
+      first [ apply f_utf8bytelength_doc | apply f_keys_doc | apply f_reverse_doc | apply f_type_doc | apply f_explode_doc
+            | apply f_min_doc | apply f_max_doc | apply f_add_doc ]; auto.
+  Qed.
 
   (* ---- text-producing builtins: a json.Number prints its literal digits (C10), so representation
      independence holds for literals in CANONICAL text: the digits Go prints for the int / float ---- *)
